@@ -534,9 +534,23 @@ func TestVerifResourcesReplay(t *testing.T) {
 		}
 		d := json.NewDecoder(bytes.NewReader(b))
 		d.UseNumber()
-		if bytes.HasPrefix(bytes.TrimSpace(b), []byte("[")) {
+		isWalk := bytes.HasPrefix(bytes.TrimSpace(b), []byte("["))
+		isIndexed := bytes.HasPrefix(bytes.TrimSpace(b), []byte(`{"bi":`)) // a walk re-run under its original index (same concretisation)
+		if isWalk || isIndexed {
 			var steps []vkStep
-			if err := d.Decode(&steps); err != nil {
+			if isIndexed {
+				var iw struct {
+					Bi    int      `json:"bi"`
+					Steps []vkStep `json:"steps"`
+				}
+				if err := d.Decode(&iw); err != nil {
+					return err
+				}
+				steps = iw.Steps
+				saved := bi
+				bi = iw.Bi
+				defer func() { bi = saved }()
+			} else if err := d.Decode(&steps); err != nil {
 				return err
 			}
 			w.c = vkNewConc(rand.New(rand.NewSource(seed*1000003 + int64(bi))))
